@@ -295,6 +295,9 @@ func (descriptor *pmtDescriptor) IsDolbyATMOS() bool {
 
 		start := uint8(2)
 		if bsid_flag {
+			if int(start) >= len(descriptor.data) {
+				return false // the descriptor ends before the flags byte
+			}
 			language_flag = 1 == uint8((descriptor.data[start]&0x80)>>7)   // 1 bit
 			language_flag_2 = 1 == uint8((descriptor.data[start]&0x40)>>6) // 1 bit
 			start++
